@@ -53,6 +53,47 @@ func (a *progAuth) Shutdown() error { return nil }
 
 var authSeq uint64
 
+// ---- metrics wrapper: lets the harness wait for "connection close fully processed" ----
+// (clients.Manager calls Clients().OnDisconnected in connectionClosed and, for a durable session,
+// Packets().OnAddStore in sessionOffline after the queued packets were handed to persistence)
+
+type recClients struct {
+	metrics.Clients
+	disconnected int64
+}
+
+func (r *recClients) OnDisconnected(p bool) {
+	r.Clients.OnDisconnected(p)
+	atomic.AddInt64(&r.disconnected, 1)
+}
+
+type recPackets struct {
+	metrics.Packets
+	addStore int64
+}
+
+func (r *recPackets) OnAddStore(n int) {
+	r.Packets.OnAddStore(n)
+	atomic.AddInt64(&r.addStore, 1)
+}
+
+type recMetrics struct {
+	metrics.Informer
+	c *recClients
+	p *recPackets
+}
+
+func (r *recMetrics) Clients() metrics.Clients { return r.c }
+func (r *recMetrics) Packets() metrics.Packets { return r.p }
+
+func newRecMetrics() *recMetrics {
+	m := metrics.New()
+	return &recMetrics{Informer: m, c: &recClients{Clients: m.Clients()}, p: &recPackets{Packets: m.Packets()}}
+}
+
+func (r *recMetrics) Disconnected() int64 { return atomic.LoadInt64(&r.c.disconnected) }
+func (r *recMetrics) AddStore() int64     { return atomic.LoadInt64(&r.p.addStore) }
+
 // ---- broker ---------------------------------------------------------------------
 
 type BrokerOpts struct {
@@ -79,6 +120,7 @@ type Broker struct {
 	Persist vlpersistence.IFace
 	Auth    *auth.Manager
 	Opts    BrokerOpts
+	Met     *recMetrics
 	authNames []string
 }
 
@@ -103,7 +145,8 @@ func NewBroker(o BrokerOpts) (*Broker, error) {
 			return nil, err
 		}
 	}
-	m := metrics.New()
+	m := newRecMetrics()
+	b.Met = m
 	tc := topicsTypes.NewMemConfig()
 	tc.MetricsPackets = m.Packets()
 	tc.MetricsSubs = m.Subs()
@@ -181,6 +224,21 @@ func (b *Broker) Close(timeout time.Duration) bool {
 	}
 	authRegMu.Unlock()
 	return ok
+}
+
+// Drop abandons the broker without waiting for Stop (used by harnesses whose property is not about
+// shutdown: Manager.Stop is exercised by C20 only).
+func (b *Broker) Drop() {
+	go func() {
+		_ = b.Mgr.Stop()
+		_ = b.Mgr.Shutdown()
+		_ = b.Topics.Shutdown()
+	}()
+	authRegMu.Lock()
+	for _, n := range b.authNames {
+		auth.UnRegister(n)
+	}
+	authRegMu.Unlock()
 }
 
 // ---- client ---------------------------------------------------------------------
@@ -353,6 +411,7 @@ type Auto struct {
 	mu      sync.Mutex
 	Pubs    []*mqttp.Publish
 	Others  []mqttp.IFace
+	Seq     []mqttp.IFace // everything, in arrival order
 	closed  bool
 	notify  chan struct{}
 	NoAck   bool
@@ -393,6 +452,7 @@ func (a *Auto) loop() {
 			a.wake()
 			return
 		}
+		a.Seq = append(a.Seq, pkt)
 		switch p := pkt.(type) {
 		case *mqttp.Publish:
 			a.Pubs = append(a.Pubs, p)
